@@ -16,6 +16,10 @@
 // Rasters are printed row-major. Doubles are printed as exact rationals `num/den` (`nan`, `max`).
 // The bounding boxes (private members) are read through an explicit-instantiation accessor.
 //
+// Case 0 of the mode is fixed (the same for every seed): three quarantine layouts with non-integer
+// resolutions on which the side that is really the nearest differs from the side a comparison of
+// ROUNDED distances would pick (finding F27); all other cases are random.
+//
 // Usage: h_metric <mode> <seed> <first> <count>      mode: mix
 #include <cfloat>
 #include <cmath>
@@ -80,20 +84,25 @@ static std::string data(const Raster<int>& r) {
 }
 
 struct Grid {
-    int rows, cols; double ew, ns; bool int_res;
+    int rows, cols; double ew, ns; bool int_res;   // int_res: both resolutions are integers
     std::vector<std::vector<int>> cells;   // suitable cells as handed to the library
     std::vector<char> suit;                // mask rows*cols
     bool restrict_to_suitable;             // infections only inside suitable cells
 };
 
+// Resolutions are dyadic (k/2, k/4, k/8, k/16 with k odd when not an integer), so every product
+// cells x resolution the library forms is exact in double precision.
 static double pick_res(Rng& rng, bool integer) {
     static const std::vector<double> ints = {1, 1, 2, 3, 5, 10, 10, 30, 100, 250};
     if (integer) return rng.pick(ints);
-    int k = rng.in(0, 3);
-    if (k == 0) return rng.in(1, 19) / 2.0;          // x.5
-    if (k == 1) return rng.in(1, 63) / 4.0;
-    if (k == 2) return rng.in(1, 640) / 64.0;
-    return 2.5;
+    if (rng.coin(55)) {   // below one map unit: neighbouring cells differ by less than 1/2 after rounding
+        static const std::vector<double> small = {1 / 2., 1 / 4., 3 / 4., 1 / 8., 3 / 8., 5 / 8., 7 / 8.,
+                                                  1 / 16., 3 / 16., 5 / 16., 7 / 16., 9 / 16., 13 / 16.};
+        return rng.pick(small);
+    }
+    int den = 2 << rng.in(0, 3);                       // 2, 4, 8, 16
+    int k = 2 * rng.in(0, den * 6 - 1) + 1;            // odd, value below 12
+    return (double)k / den;
 }
 
 static Grid gen_grid(Rng& rng) {
@@ -103,13 +112,23 @@ static Grid gen_grid(Rng& rng) {
     if (cls < 3) { g.rows = 1; g.cols = 1; cname = "shape_1x1"; }
     else if (cls < 13) { g.rows = 1; g.cols = rng.in(2, 9); cname = "shape_1xN"; }
     else if (cls < 23) { g.rows = rng.in(2, 9); g.cols = 1; cname = "shape_Nx1"; }
-    else if (cls < 53) { g.cols = rng.in(1, 6); g.rows = g.cols + rng.in(1, 5); cname = "shape_tall"; }
-    else if (cls < 83) { g.rows = rng.in(1, 6); g.cols = g.rows + rng.in(1, 5); cname = "shape_wide"; }
+    else if (cls < 48) { g.cols = rng.in(1, 6); g.rows = g.cols + rng.in(1, 5); cname = "shape_tall"; }
+    else if (cls < 73) { g.rows = rng.in(1, 6); g.cols = g.rows + rng.in(1, 5); cname = "shape_wide"; }
+    else if (cls < 85) { g.rows = rng.in(6, 12); do g.cols = rng.in(6, 12); while (g.cols == g.rows); cname = "shape_large_nonsquare"; }
     else { g.rows = g.cols = rng.in(2, 7); cname = "shape_square"; }
     stats.add(cname);
-    g.int_res = rng.coin(70);
-    g.ew = pick_res(rng, g.int_res); g.ns = rng.coin(35) ? g.ew : pick_res(rng, g.int_res);
-    stats.add(g.int_res ? "res_integer" : "res_dyadic");
+    int rc = rng.in(0, 99);                             // 45 % both integer, 35 % both non-integer, 20 % mixed
+    bool ew_int = rc < 45 || (rc >= 80 && rc < 90), ns_int = rc < 45 || rc >= 90;
+    g.ew = pick_res(rng, ew_int);
+    g.ns = (ew_int == ns_int && rng.coin(35)) ? g.ew : pick_res(rng, ns_int);
+    if (!ew_int && !ns_int && rng.coin(30)) {           // two close values with fractions below 1/2: a x ns and a x ew differ by little
+        int a = rng.in(0, 4), f1 = rng.in(1, 7), f2 = rng.in(1, 7);
+        g.ew = a + f1 / 16.0; g.ns = a + f2 / 16.0;
+        stats.add("res_close_pair");
+    }
+    g.int_res = ew_int && ns_int;
+    stats.add(g.int_res ? "res_both_integer" : (!ew_int && !ns_int ? "res_both_noninteger" : "res_one_noninteger"));
+    if (g.ew < 1 || g.ns < 1) stats.add("res_below_one");
     if (g.ew != g.ns) stats.add("res_ew_ne_ns");
     int n = g.rows * g.cols;
     g.suit.assign((size_t)n, 1);
@@ -235,8 +254,9 @@ static Raster<int> gen_areas(Rng& rng, const Grid& g, bool negids) {
     stats.add("areas_" + std::to_string(nareas));
     for (int t = 0; t < nareas; t++) {
         int id = rng.pick(ids);
-        if (t == 0 && rng.coin(15)) { for (int i = 0; i < g.rows; i++) for (int j = 0; j < g.cols; j++) a(i, j) = id; continue; }
+        if (t == 0 && rng.coin(25)) { for (int i = 0; i < g.rows; i++) for (int j = 0; j < g.cols; j++) a(i, j) = id; continue; }
         int i0 = rng.in(0, g.rows - 1), i1 = rng.in(i0, g.rows - 1), j0 = rng.in(0, g.cols - 1), j1 = rng.in(j0, g.cols - 1);
+        if (rng.coin(40)) { i0 = rng.in(0, g.rows / 3); i1 = rng.in(g.rows - 1 - g.rows / 3, g.rows - 1); j0 = rng.in(0, g.cols / 3); j1 = rng.in(g.cols - 1 - g.cols / 3, g.cols - 1); }   // a large rectangle
         for (int i = i0; i <= i1; i++) for (int j = j0; j <= j1; j++) a(i, j) = id;
     }
     if (nareas > 0 && rng.coin(40)) {                           // ragged outlines, holes, scattered cells
@@ -247,36 +267,145 @@ static Raster<int> gen_areas(Rng& rng, const Grid& g, bool negids) {
     return a;
 }
 
-static Raster<int> gen_qinf(Rng& rng, const Grid& g, const Raster<int>& areas, bool neg) {
-    if (rng.coin(35)) return gen_inf(rng, g, neg);
+static void dirs_enabled(const std::string& dirs, bool en[4]) {   // N, S, E, W; the empty string enables all
+    static const char name[4] = {'N', 'S', 'E', 'W'};
+    for (int t = 0; t < 4; t++) en[t] = dirs.empty() || dirs.find(name[t]) != std::string::npos;
+}
+
+static void area_box(const Grid& g, const Raster<int>& areas, int id, int& n, int& s, int& e, int& w) {
+    n = g.rows; s = -1; e = -1; w = g.cols;
+    for (int a = 0; a < g.rows; a++) for (int b = 0; b < g.cols; b++) if (areas(a, b) == id) { n = std::min(n, a); s = std::max(s, a); e = std::max(e, b); w = std::min(w, b); }
+}
+
+static Raster<int> gen_qinf(Rng& rng, const Grid& g, const Raster<int>& areas, const std::string& dirs, bool neg) {
+    if (rng.coin(30)) return gen_inf(rng, g, neg);
     Raster<int> r(g.rows, g.cols, 0);
-    std::vector<std::pair<int, int>> in;
-    for (int i = 0; i < g.rows; i++) for (int j = 0; j < g.cols; j++) if (areas(i, j) != 0 && allowed(g, i, j)) in.push_back({i, j});
+    std::vector<std::pair<int, int>> in, deep;      // deep: at least one cell away from every enabled side of its area's box
+    bool en[4]; dirs_enabled(dirs, en);
+    for (int i = 0; i < g.rows; i++) for (int j = 0; j < g.cols; j++) if (areas(i, j) != 0 && allowed(g, i, j)) {
+        in.push_back({i, j});
+        if (areas(i, j) < 0) continue;
+        int n, s, e, w; area_box(g, areas, areas(i, j), n, s, e, w);
+        if ((!en[0] || i > n) && (!en[1] || i < s) && (!en[2] || j < e) && (!en[3] || j > w)) deep.push_back({i, j});
+    }
     if (in.empty()) return r;
-    int m = rng.coin(50) ? 1 : rng.in(2, 6);
-    for (int t = 0; t < m; t++) { auto p = rng.pick(in); r(p.first, p.second) = val(rng, neg); }
+    // several infected cells, all with non-zero distances: with a non-integer resolution their exact
+    // distances often differ by less than 1/2, and the nearest side is decided by the fractions
+    bool use_deep = !deep.empty() && rng.coin(70);
+    if (use_deep) stats.add("q_infection_away_from_enabled_sides");
+    const auto& pool = use_deep ? deep : in;
+    int m = rng.coin(25) ? 1 : rng.in(2, 8);
+    for (int t = 0; t < m; t++) { auto p = rng.pick(pool); r(p.first, p.second) = val(rng, neg); }
     return r;
 }
 
-// definitional nearest distance (brute force) and the set of sides that attain it; used only for the
-// statistics about non-integer resolutions (which C18_nearest excludes)
-static bool brute_nearest(const Grid& g, const Raster<int>& areas, const Raster<int>& inf, const std::string& dirs, double& best, int& sides) {
-    bool dn = dirs.empty() || dirs.find('N') != std::string::npos, dS = dirs.empty() || dirs.find('S') != std::string::npos,
-         de = dirs.empty() || dirs.find('E') != std::string::npos, dw = dirs.empty() || dirs.find('W') != std::string::npos;
-    bool found = false; best = 0; sides = 0;
+// Input-distribution survey of one contained report (never a verdict; the driver judges): all
+// (infected cell, enabled side) pairs in scan order with their exact distances.
+struct Survey { bool ok = false; int cells = 0; int min_sides = 0; bool other_side_within_half = false; bool rounded_compare_picks_other_side = false; };
+static Survey survey_nearest(const Grid& g, const Raster<int>& areas, const Raster<int>& inf, const std::string& dirs) {
+    bool en[4]; dirs_enabled(dirs, en);
+    Survey sv;
+    std::vector<std::pair<double, int>> cand;
+    // what a comparison of rounded values would keep: `x < (int)min` inside a cell, rounded results across cells
+    bool r_any = false; long r_best = 0; int r_side = -1;
     for (auto& cell : g.cells) {
         int i = cell[0], j = cell[1];
         if (!inf(i, j)) continue;
-        int id = areas(i, j); if (id <= 0) return false;
-        int n = g.rows, s = -1, e = -1, w = g.cols;
-        for (int a = 0; a < g.rows; a++) for (int b = 0; b < g.cols; b++) if (areas(a, b) == id) { n = std::min(n, a); s = std::max(s, a); e = std::max(e, b); w = std::min(w, b); }
-        double d[4] = {(i - n) * g.ns, (s - i) * g.ns, (e - j) * g.ew, (j - w) * g.ew}; bool en[4] = {dn, dS, de, dw};
+        int id = areas(i, j); if (id <= 0) return sv;
+        sv.cells++;
+        int n, s, e, w; area_box(g, areas, id, n, s, e, w);
+        double d[4] = {(i - n) * g.ns, (s - i) * g.ns, (e - j) * g.ew, (j - w) * g.ew};
+        bool c_any = false; long c_min = 0; int c_side = -1;
         for (int t = 0; t < 4; t++) if (en[t]) {
-            if (!found || d[t] < best) { best = d[t]; found = true; sides = 1 << t; }
-            else if (d[t] == best) sides |= 1 << t;
+            cand.push_back({d[t], t});
+            if (!c_any || d[t] < (double)c_min) { c_any = true; c_min = std::lround(d[t]); c_side = t; }
         }
+        if (c_any && (!r_any || c_min < r_best)) { r_any = true; r_best = c_min; r_side = c_side; }
     }
-    return found;
+    if (cand.empty()) return sv;
+    sv.ok = true;
+    double best = cand[0].first;
+    for (auto& x : cand) best = std::min(best, x.first);
+    for (auto& x : cand) if (x.first == best) sv.min_sides |= 1 << x.second;
+    for (auto& x : cand) if (!(sv.min_sides & (1 << x.second)) && x.first - best < 0.5) sv.other_side_within_half = true;
+    sv.rounded_compare_picks_other_side = !(sv.min_sides & (1 << r_side));
+    return sv;
+}
+
+static void print_table(std::ostream& out, const QE& q) {
+    const auto& bs = q.*get(QEb()); const auto& mp = q.*get(QEm());
+    std::vector<std::pair<int, int>> byidx;                 // (idx, id)
+    for (auto& kv : mp) byidx.push_back({kv.second, kv.first});
+    std::sort(byidx.begin(), byidx.end());
+    out << "ok " << byidx.size();
+    for (auto& p : byidx) out << " " << p.second << " " << box(bs.at((size_t)p.first));
+    out << "\n";
+}
+
+static void print_report(std::ostream& out, const QE& q, unsigned step) {
+    out << "ok " << (q.escaped(step) ? 1 : 0) << " " << drat(q.distance(step)) << " " << quarantine_enum_to_string(q.direction(step)) << " " << q.direction(step) << "\n";
+}
+
+static void print_aggregates(std::ostream& out, const std::vector<QE>& runs, unsigned K, unsigned upto) {
+    int nruns = (int)runs.size();
+    for (unsigned s = 0; s < upto; s++) {
+        out << "metric.q.prob " << s << " " << nruns;
+        if (s < K) for (auto& q : runs) out << " " << (std::get<0>(q.escape_info(s)) ? 1 : 0);
+        out << " => ";
+        double p = 0; std::string e = verif::err_kind([&] { p = quarantine_escape_probability(runs, s); });
+        if (e.empty()) out << drat(p) << "\n"; else out << e << "\n";
+        out << "metric.q.dd " << s << " " << nruns << " => ";
+        std::vector<DistDir> dd; e = verif::err_kind([&] { dd = distance_direction_to_quarantine(runs, s); });
+        if (e.empty()) { bool first = true; for (auto& x : dd) { out << (first ? "" : " ") << drat(std::get<0>(x)) << " " << std::get<1>(x); first = false; } out << "\n"; }
+        else out << e << "\n";
+    }
+    std::string csv = write_quarantine_escape(runs, K);
+    for (auto& ch : csv) if (ch == '\n') ch = '|';
+    out << "metric.q.csv " << K << " " << nruns << " => " << csv << "\n";
+    stats.add("csv_texts");
+}
+
+static void print_grid(std::ostream& out, const Grid& g) {
+    out << "metric.grid " << g.rows << " " << g.cols << " " << drat(g.ew) << " " << drat(g.ns) << " " << g.cells.size();
+    for (auto& cell : g.cells) out << " " << cell[0] << " " << cell[1];
+    out << " => -\n";
+}
+
+// One fixed layout: a single area (id 1) covering the whole raster, all cells suitable, the given
+// infected cells, one run, one measurement.
+static void emit_fixed(verif::Case& c, int rows, int cols, double ew, double ns, const std::string& dirs,
+                       const std::vector<std::pair<int, int>>& infected) {
+    std::ostream& out = c.out;
+    Grid g; g.rows = rows; g.cols = cols; g.ew = ew; g.ns = ns; g.int_res = false; g.restrict_to_suitable = true;
+    g.suit.assign((size_t)(rows * cols), 1);
+    for (int i = 0; i < rows; i++) for (int j = 0; j < cols; j++) g.cells.push_back({i, j});
+    print_grid(out, g);
+    Raster<int> areas(rows, cols, 1), inf(rows, cols, 0);
+    for (auto& p : infected) inf(p.first, p.second) = 1;
+    out << "metric.q.new 1 " << dirs << " 1 " << data(areas) << " => ";
+    QE q(areas, ew, ns, 1, dirs);
+    print_table(out, q);
+    HP hp{&inf, &g.cells};
+    out << "metric.q.act 0 0 same " << data(inf) << " => ";
+    q.action(hp, areas, 0);
+    print_report(out, q, 0);
+    std::vector<QE> runs(1, q);
+    print_aggregates(out, runs, 1, 1);
+    c.nontrivial = true;
+    stats.add("fixed_rounding_order_layouts");
+    Survey sv = survey_nearest(g, areas, inf, dirs);
+    if (sv.ok && sv.rounded_compare_picks_other_side) stats.add("q_rounded_comparison_would_pick_a_farther_side");
+}
+
+// Case 0. (a) 52 x 1, ns = 0.4 (the only non-dyadic value the harness uses; 26 x 0.4 and 25 x 0.4 round
+// to 10.4 and exactly 10.0 in double precision), infected cell in row 26, sides N and S: north edge at
+// 10.4, south edge at 10.0 - the nearest side is S. (b) the same shape of example with dyadic numbers:
+// 10 x 1, ns = 1/4, infected row 5: north 1.25, south 1.0. (c) two infected cells, 1 x 12, ew = 1/4,
+// sides E and W: column 5 is 1.25 from W, column 7 is 1.0 from E - each cell alone rounds to 1.
+static void emit_case0(verif::Case& c) {
+    emit_fixed(c, 52, 1, 1.0, 0.4, "N,S", {{26, 0}});
+    emit_fixed(c, 10, 1, 1.0, 0.25, "N,S", {{5, 0}});
+    emit_fixed(c, 1, 12, 0.25, 1.0, "E,W", {{0, 5}, {0, 7}});
 }
 
 static void emit_quarantine(verif::Case& c, const Grid& g, bool neg) {
@@ -291,15 +420,7 @@ static void emit_quarantine(verif::Case& c, const Grid& g, bool neg) {
     QE* proto = nullptr;
     std::string e0 = verif::err_kind([&] { proto = new QE(areas, g.ew, g.ns, K, dirs); });
     if (!e0.empty()) { out << e0 << "\n"; stats.add("q_new_rejected"); return; }
-    {
-        const auto& bs = (*proto).*get(QEb()); const auto& mp = (*proto).*get(QEm());
-        std::vector<std::pair<int, int>> byidx;                 // (idx, id)
-        for (auto& kv : mp) byidx.push_back({kv.second, kv.first});
-        std::sort(byidx.begin(), byidx.end());
-        out << "ok " << byidx.size();
-        for (auto& p : byidx) out << " " << p.second << " " << box(bs.at((size_t)p.first));
-        out << "\n";
-    }
+    print_table(out, *proto);
     std::vector<QE> runs((size_t)nruns, *proto);
     delete proto;
     for (int run = 0; run < nruns; run++) {
@@ -307,7 +428,7 @@ static void emit_quarantine(verif::Case& c, const Grid& g, bool neg) {
         for (unsigned s = 0; s < K; s++) {
             unsigned step = s;
             if (odd && rng.coin(40)) { step = (unsigned)rng.in(0, (int)K + 1); stats.add("q_step_out_of_sequence"); }
-            Raster<int> inf = gen_qinf(rng, g, areas, neg);
+            Raster<int> inf = gen_qinf(rng, g, areas, dirs, neg);
             HP hp{&inf, &g.cells};
             bool diff = rng.coin(2);
             Raster<int> areas2 = diff ? gen_areas(rng, g, false) : areas;
@@ -318,51 +439,34 @@ static void emit_quarantine(verif::Case& c, const Grid& g, bool neg) {
             std::string e = verif::err_kind([&] { runs[(size_t)run].action(hp, areas2, step); });
             if (!e.empty()) { out << e << "\n"; stats.add("q_act_rejected"); continue; }
             const QE& q = runs[(size_t)run];
-            out << "ok " << (q.escaped(step) ? 1 : 0) << " " << drat(q.distance(step)) << " " << quarantine_enum_to_string(q.direction(step)) << " " << q.direction(step) << "\n";
+            print_report(out, q, step);
             if (q.escaped(step)) stats.add("q_escaped");
             else if (q.direction(step) == Direction::None) stats.add("q_no_infected_cell");
             else {
                 stats.add("q_contained"); if (g.rows * g.cols > 1) c.nontrivial = true;
                 stats.add(std::string("q_dir_") + quarantine_enum_to_string(q.direction(step)));
-                double best; int sides;
-                if (!g.int_res && !diff && !negids && brute_nearest(g, areas, inf, dirs, best, sides)) {
-                    stats.add("nonint_res_contained");
-                    Direction d = q.direction(step);
-                    int bit = d == Direction::N ? 1 : d == Direction::S ? 2 : d == Direction::E ? 4 : 8;
-                    if (q.distance(step) != (double)std::lround(best)) stats.add("nonint_res_distance_not_rounded_nearest");
-                    if (!(sides & bit)) stats.add("nonint_res_direction_not_of_a_nearest_side");
+                Survey sv;
+                if (!diff && !negids) sv = survey_nearest(g, areas, inf, dirs);
+                if (sv.ok) {                                    // in the domain of the nearest-cell statement
+                    stats.add(g.int_res ? "q_contained_integer_res" : "q_contained_noninteger_res");
+                    if (sv.cells > 1) stats.add("q_contained_several_infected_cells");
+                    if ((sv.min_sides & (sv.min_sides - 1)) != 0) stats.add("q_nearest_attained_by_several_sides");
+                    if (sv.other_side_within_half) stats.add("q_other_side_within_half_of_nearest");
+                    if (sv.rounded_compare_picks_other_side) stats.add("q_rounded_comparison_would_pick_a_farther_side");
                 }
             }
         }
     }
-    for (unsigned s = 0; s <= K; s++) {
-        if (s == K && !rng.coin(10)) break;                     // sometimes one step past the end
-        out << "metric.q.prob " << s << " " << nruns;
-        if (s < K) for (auto& q : runs) out << " " << (std::get<0>(q.escape_info(s)) ? 1 : 0);
-        out << " => ";
-        double p = 0; std::string e = verif::err_kind([&] { p = quarantine_escape_probability(runs, s); });
-        if (e.empty()) out << drat(p) << "\n"; else out << e << "\n";
-        out << "metric.q.dd " << s << " " << nruns << " => ";
-        std::vector<DistDir> dd; e = verif::err_kind([&] { dd = distance_direction_to_quarantine(runs, s); });
-        if (e.empty()) { bool first = true; for (auto& x : dd) { out << (first ? "" : " ") << drat(std::get<0>(x)) << " " << std::get<1>(x); first = false; } out << "\n"; }
-        else out << e << "\n";
-    }
-    {
-        std::string csv = write_quarantine_escape(runs, K);
-        for (auto& ch : csv) if (ch == '\n') ch = '|';
-        out << "metric.q.csv " << K << " " << nruns << " => " << csv << "\n";
-        stats.add("csv_texts");
-    }
+    print_aggregates(out, runs, K, rng.coin(10) ? K + 1 : K);     // sometimes one step past the end
 }
 
 static void emit_case(verif::Case& c) {
     Rng& rng = c.rng; std::ostream& out = c.out;
+    if (c.index == 0) { emit_case0(c); return; }
     Grid g = gen_grid(rng);
     bool neg = rng.coin(3);
     if (neg) stats.add("rasters_with_negative_values");
-    out << "metric.grid " << g.rows << " " << g.cols << " " << drat(g.ew) << " " << drat(g.ns) << " " << g.cells.size();
-    for (auto& cell : g.cells) out << " " << cell[0] << " " << cell[1];
-    out << " => -\n";
+    print_grid(out, g);
     emit_spread(c, g, neg);
     emit_quarantine(c, g, neg);
     int m = rng.in(1, 3);
